@@ -87,6 +87,7 @@ def run_native(contract, sname, values, fn=None):
     for lab, excs, e in contract.raises_:
         code, _ = _compile(e)
         raise_when[lab] = (excs, bool(eval(code, ns)))
+    reach = _reachable(list(args) + list(kwargs.values())) if contract.fresh_result_ else set()
     try:
         res = real(*args, **kwargs)
         if isinstance(res, types.GeneratorType):
@@ -113,6 +114,15 @@ def run_native(contract, sname, values, fn=None):
                 lab = f"{lab} (clause raised {type(ex).__name__}: {ex})"
             if not ok:
                 out.failed.append((lab, f"result={_short(out.result)}"))
+        for lab, e in contract.fresh_result_:
+            code, _ = _compile(e)
+            out.checked += 1
+            try:
+                obj = eval(code, {**ns, "result": out.result})
+                if id(obj) in reach:
+                    out.failed.append((lab, f"{e} is an object reachable from the arguments (shared mutable state)"))
+            except Exception as ex:
+                out.failed.append((lab, f"clause raised {type(ex).__name__}: {ex}"))
     else:
         for lab, e in contract.on_raise_:
             code, olds = compiled[("on_raise", lab)]
@@ -137,3 +147,23 @@ def run_native(contract, sname, values, fn=None):
 def _short(v):
     s = repr(v)
     return s if len(s) < 200 else s[:200] + "..."
+
+
+def _reachable(roots, depth=5):
+    """ids of mutable objects reachable from the arguments"""
+    seen = set()
+    todo = [(r, 0) for r in roots]
+    while todo:
+        o, d = todo.pop()
+        if o is None or isinstance(o, (int, float, str, bool, bytes, type)) or id(o) in seen or d > depth:
+            continue
+        seen.add(id(o))
+        if isinstance(o, dict):
+            todo += [(v, d + 1) for v in o.values()]
+        elif isinstance(o, (list, tuple, set)):
+            todo += [(v, d + 1) for v in o]
+        elif hasattr(o, "__dict__"):
+            todo += [(v, d + 1) for v in vars(o).values()]
+        elif hasattr(o, "__slots__"):
+            todo += [(getattr(o, n, None), d + 1) for n in o.__slots__]
+    return seen
